@@ -721,7 +721,9 @@ def c19(ctx):
             vals, table = _pool.build(seed, nb)
             pf = os.path.join(d, "pool_%d.json" % seed)
             _pool.write(pf, table)
-            c = dict(Mode='"roundtrip"', NTrains=2 if q else 3, MaxLen=2, MaxEdits=1 if q else 2, Rows=1, Cols=1, Sample=5 if q else 6)
+            # thorough: three trains and two edits; the value sample is kept at the quick size (6 values gave
+            # 2.1 million file round trips per pool, about 40 minutes for no new kind of case)
+            c = dict(Mode='"roundtrip"', NTrains=2 if q else 3, MaxLen=2, MaxEdits=1 if q else 2, Rows=1, Cols=1, Sample=5 if q else 4)
             res = run_tlc("TextIO", c, ["RoundTrip", "Identity17", "RndMonotone", "CountAndOrder", "Export"], workers=16,
                           timeout=3000, env={"POOL_FILE": pf}, seed=ctx.seed or 1)
             ctx.add_tlc(res, "save / edit / load: file structure and rounding tables (pool of %d doubles)" % len(vals), exhaustive=False)
